@@ -293,7 +293,9 @@ func (g *gen) histFill() {
 	os.RemoveAll(dir)
 	g.u = &hx.Universe{KvBuckets: []string{"b1", "nob"}}
 	g.newSess(dir, mode, rw, seg)
-	g.s.Opt.StartFileLoadingMode = nutsdb.RWMode(g.hist % 2)
+	if g.forceOpt == nil {
+		g.s.Opt.StartFileLoadingMode = nutsdb.RWMode(g.hist % 2)
+	}
 	g.s.R.Emit(hx.Ev{"op": "reset", "mode": int(mode), "rw": int(rw), "seg": seg, "hist": g.hist,
 		"sync": g.s.Opt.SyncEnable, "load": int(g.s.Opt.StartFileLoadingMode), "family": "fill"})
 	if err := g.s.OpenFirst(); err != nil {
@@ -344,6 +346,29 @@ func (g *gen) histFill() {
 			if used == seg-gap {
 				break
 			}
+		}
+		// directed boundary cases: an empty-value record that ends exactly on
+		// the last byte of the segment, and a reopen while the active
+		// segment is exactly full
+		if gap >= hdr+3 && gap <= hdr+5 && used == seg-gap && g.r.Intn(2) == 0 {
+			k := []string{"a", "ab", "abc"}[gap-hdr-3]
+			put(k, 0)
+			if g.r.Intn(2) == 0 {
+				g.s.Shadow(dir + "-shadow")
+				g.s.Close()
+				if g.s.Open() != nil {
+					return
+				}
+				g.s.Obs()
+			}
+		}
+		if gap == 0 && used == seg && g.r.Intn(2) == 0 {
+			g.s.Shadow(dir + "-shadow")
+			g.s.Close()
+			if g.s.Open() != nil {
+				return
+			}
+			g.s.Obs()
 		}
 		// a record torn by a failing write at the tail of the segment, then a
 		// commit that does not fit and rotates: the torn record stays at the
@@ -767,6 +792,9 @@ func (g *gen) histMixed(o mixOpts) {
 		nops := 1
 		if g.r.Intn(100) < o.pMulti {
 			nops = 2 + g.r.Intn(4)
+			if g.r.Intn(12) == 0 {
+				nops = 13 + g.r.Intn(10) // a bulk transaction over several buckets
+			}
 		}
 		ro := g.r.Intn(6) == 0
 		t, err := g.s.Begin(!ro)
@@ -972,8 +1000,8 @@ func main() {
 				}
 			}
 			g.histKV()
-		case "product", "productkv":
-			g.histProduct(c.Family == "productkv")
+		case "product", "productkv", "productfill":
+			g.histProduct(c.Family)
 		case "crash": // C10: every structure, process crash at every mutation point
 			g.histCrash(crashOpts{kinds: []string{"kv", "list", "set", "zset"}, sameMs: true, allTorn: g.c.AllTorn})
 		case "crashkv":
